@@ -14,7 +14,13 @@ def _alarm(sig, frm):
 def main():
     modname, pidx, fin, fout, tmo = sys.argv[1], int(sys.argv[2]), sys.argv[3], sys.argv[4], int(sys.argv[5])
     repo = os.environ.get('DCMSTACK_REPO', '/repo')
-    sys.path.insert(0, os.path.join(repo, 'src'))
+    src = os.path.join(repo, 'src')
+    if not os.path.isdir(os.path.join(src, 'dcmstack')):
+        raise SystemExit('implementation tree not found: %s (DCMSTACK_REPO=%s)' % (src, repo))
+    sys.path.insert(0, src)
+    import dcmstack as _d
+    if not os.path.realpath(_d.__file__).startswith(os.path.realpath(src) + os.sep):
+        raise SystemExit('refusing to run: dcmstack was imported from %s, not from %s' % (_d.__file__, src))
     warnings.simplefilter('ignore')
     plugin = importlib.import_module(modname)
     parts = getattr(plugin, 'PARTS', None) or [plugin]
